@@ -93,3 +93,13 @@ Definition is8 (o : op) : Prop := match o with OU8 | OI8 | OReadByte => True | _
 
 (* all values written with one byte order *)
 Definition enc_all (little : bool) (vs : list value) : list Z := concat (map (enc_value little) vs).
+
+(* a state some healthy source of d can be in: any supported operations have been applied, none panicked
+   (reads may have run past the end, positions may have been moved by Seek) *)
+Inductive reachable (d : list Z) : sys bstate -> Prop :=
+| R_init s : healthy s d -> reachable d (new_sys s)
+| R_step st o st' v :
+    reachable d st -> allowed (random_access (bst st)) o -> step any_backend st o = Some (st', v) ->
+    reachable d st'.
+
+Definition in_memory (s : bstate) : Prop := exists d, s = SBytes d.
